@@ -1,10 +1,10 @@
 From Coq Require Import Extraction ExtrOcamlBasic NArith ZArith List.
 From Storage Require Import Base.Bytes Cursor.Core Cursor.BoltCursor Cursor.Typed Cursor.Filtered
-  Cursor.Union Cursor.Tree Cursor.SetSym Cursor.Cases Cursor.Reuse Cursor.Scanner.
+  Cursor.Union Cursor.Tree Cursor.SetSym Cursor.Cases Cursor.Reuse Cursor.Scanner Cursor.Product.
 Extraction Language OCaml.
 Definition force_types : nat * N * Z := (O, 0%N, 0%Z).
 Extraction "c14_model.ml" force_types b_run bolt_run typed_run typed_run_legacy setsym_run handout_run handout_run_legacy
   rawhand_run empty_run filtered_typed_run filtered_nil_run union_typed_run treeset_run treeset_run_legacy
   union_tree_run union_filtered_run build_index allof_run anyof_run anyof_run_legacy allof_ids anyof_ids
   spec_next spec_ops sort_dedup mem setsym_reuse_run scan_run scan_spec
-  ids_run valid_ids_run scan_bolt_run page accept_of ids_run_guarded.
+  ids_run valid_ids_run scan_bolt_run page accept_of ids_run_guarded multi_run multi_spec multi_run_shared.
